@@ -192,7 +192,8 @@ class UnitX(Unit):
                   opaque=[{'at': 'node.children().filter(Node::is_element)', 'call': 'element_children(node)', 'type': 'Vec<Node>', 'note': ELEM_CHILDREN_NOTE}],
                   inserts=[{'pos': 'body_start', 'text': BROADCAST + '\n' + reveal('sequence')},
                            {'at': 'for n in', 'text': '    let ghost node0 = node;\n    let ghost after_ext = base_fields@;'},
-                           {'at': 'let struct_props', 'text': '    proof { if no_seq_kid(node) { lemma_cc_own_empty(node, elem_kids(node).len()); assert(base_fields@ =~= after_ext); } }'}],
+                           {'at': 'let struct_props', 'text': '    proof { if no_seq_kid(node) { lemma_cc_own_empty(node, elem_kids(node).len()); assert(base_fields@ =~= after_ext); }\n'
+                                                        '        assert forall|e: Node| first_ext(node, e) && ext_simple(e) implies ext_own(e, elem_kids(e).len()) == members(e) by { lemma_ext_own_is_members(e); } }'}],
                   loops={0: {'kind': 'for', 'iter': 'it', 'match': 'in node.children()',
                              'invariants': [('node-fixed', 'node == node0 && it.seq() == elem_kids(node)'),
                                             ('fields-so-far', 'appended(after_ext, base_fields@, cc_own(node, it.index@ as nat))')],
